@@ -94,13 +94,17 @@ func payloads() []payload {
 		{"named-entities", "S1E &nbsp;&copy;&eacute; S2E", 2, "", false},
 		{"quotes", `S1E "q" 'a' S2E`, 2, "", false},
 		{"br", "S1E<br/>S2E", 2, "", true},
+		// letters whose case-folded form has another byte length (İ, Kelvin sign, ẞ, Ω), CJK, an astral character: a byte offset
+		// computed on a folded copy of the document would cut the content short
+		{"non-ascii", "İstanbul İİ S1E \u212a \u2126 \u1e9e 日本語 😀 S2E", 2, "", false},
+		{"non-ascii-one", "S1E İstanbul S2E", 2, "", false},
 	}
 }
 
 var sentRe = regexp.MustCompile(`S(\d+)E`)
 
 func runC04(res *Result, tier string, seed int64, replay string) {
-	res.Rule = "(1) content matrix, EXHAUSTIVE: 10 content slots (text, button, table cell, raw, navbar link, social element, accordion title/text, title, preview) × 9 placements (column, second column, group, hero, wrapper, middle of three sections, after a chaining section, background-image section, full-width section) × 11 payloads (plain, inline / nested markup, link with &amp;, escaped markup &lt;b&gt;, numeric and hex character references for '<', &amp;, HTML named entities, quotes, <br/>), unique sentinels in reading order; the Lean oracle on the real bytes says which sentinels standard clients see (in order) and which sit only in Outlook blocks; escaped markup must not come out as markup; a document that loses content must return an error. (2) the layout documents of C02/C03 with a sentinel in every slot. Non-trivial = every cell; distinct by (slot, placement, payload)"
+	res.Rule = "(1) content matrix, EXHAUSTIVE: 10 content slots (text, button, table cell, raw, navbar link, social element, accordion title/text, title, preview) × 9 placements (column, second column, group, hero, wrapper, middle of three sections, after a chaining section, background-image section, full-width section) × 13 payloads (plain, inline / nested markup, link with &amp;, escaped markup &lt;b&gt;, numeric and hex character references for '<', &amp;, HTML named entities, quotes, <br/>, non-ASCII letters whose case folding changes their byte length), unique sentinels in reading order; the Lean oracle on the real bytes says which sentinels standard clients see (in order) and which sit only in Outlook blocks; escaped markup must not come out as markup; a document that loses content must return an error. (2) the layout documents of C02/C03 with a sentinel in every slot. Non-trivial = every cell; distinct by (slot, placement, payload)"
 	drv, err := startDriverPool(12)
 	if err != nil {
 		res.Disagree(Violation{Sig: "driver-missing", What: err.Error()})
